@@ -38,8 +38,11 @@ structure LogState where
 /-- state right after `import emd`: NullHandler only -/
 def init : LogState := { console := none, disabled := false }
 
-/-- what the body of the decorated function does -/
-inductive Outcome | returns | raises
+/-- how the body of the decorated function is left: it returns, it raises an `Exception` (ValueError,
+    EMDSiftCovergeError, …), or it is left through a `BaseException` that is NOT an `Exception`
+    (KeyboardInterrupt — Ctrl-C during a long verbose sift —, SystemExit, GeneratorExit): an
+    `except Exception` handler does not see the third kind, a `finally` clause runs on all three -/
+inductive Outcome | returns | raises | interrupts
   deriving DecidableEq, Repr
 
 /-- what the caller of the decorated function sees -/
@@ -86,6 +89,7 @@ def setUp (s : LogState) (l : Option Level) : LogState :=
 def ownResult : Outcome → CallResult
   | .returns => .returned
   | .raises => .raisedOwn
+  | .interrupts => .raisedOwn      -- the body's own KeyboardInterrupt / SystemExit propagates
 
 /-- what a decorated call shows: its result and the console level in force while the body ran -/
 structure CallObs where
@@ -129,11 +133,28 @@ def wrapVerbosePinned (s : LogState) (v : Option Level) (o : Outcome) : LogState
     let current := s.console
     let s1 := setLevel s tmp
     match o with
-    | .raises => (s1, { result := .raisedOwn, during := s1.console })
+    | .raises | .interrupts => (s1, { result := .raisedOwn, during := s1.console })
     | .returns =>
       match current with
       | some c => (setLevel s1 c, { result := .returned, during := s1.console })
       | none => (s1, { result := .raisedKeyError, during := s1.console })
+
+/-- a `wrap_verbose` that puts the level back after a normal return and inside an `except Exception:`
+    handler (re-raising), instead of in a `finally` clause (seeded change C20-5): an exit that is not an
+    `Exception` bypasses the handler and leaves the per-call level in force.  Kept as a witness that the
+    third outcome matters (`C20.except_only_restore_leaks_on_interrupt`). -/
+def wrapVerboseExceptOnly (s : LogState) (v : Option Level) (o : Outcome) : LogState × CallObs :=
+  match v with
+  | none => (s, { result := ownResult o, during := s.console })
+  | some tmp =>
+    let current := s.console
+    let s1 := setLevel s tmp
+    let restored := match current with
+      | some c => setLevel s1 c
+      | none => s1
+    match o with
+    | .interrupts => (s1, { result := .raisedOwn, during := s1.console })
+    | _ => (restored, { result := ownResult o, during := s1.console })
 
 /-- one operation, parameterised by the wrapper in use -/
 def stepWith (w : LogState → Option Level → Outcome → LogState × CallObs)
@@ -147,6 +168,7 @@ def stepWith (w : LogState → Option Level → Outcome → LogState × CallObs)
 
 def step : LogState → Op → LogState × Option CallObs := stepWith wrapVerbose
 def stepPinned : LogState → Op → LogState × Option CallObs := stepWith wrapVerbosePinned
+def stepExceptOnly : LogState → Op → LogState × Option CallObs := stepWith wrapVerboseExceptOnly
 
 /-- final state of a history -/
 def run (s : LogState) (ops : List Op) : LogState := ops.foldl (fun s op => (step s op).1) s
@@ -192,8 +214,10 @@ def parseOpTok? (t : String) : Option Op :=
   | ["en"] => some .enable
   | ["c", v, "r"] => (parseOptLevel? v).map (.call · .returns)
   | ["c", v, "x"] => (parseOptLevel? v).map (.call · .raises)
+  | ["c", v, "i"] => (parseOptLevel? v).map (.call · .interrupts)
   | ["cb", "r"] => some (.callBad .returns)
   | ["cb", "x"] => some (.callBad .raises)
+  | ["cb", "i"] => some (.callBad .interrupts)
   | _ => none
 
 def fmtLevel : Option Level → String
@@ -222,6 +246,7 @@ def handle (o : Protocol.Op) : Option String :=
       let st ← match variant with
         | "fixed" => pure step
         | "pinned" => pure stepPinned
+        | "exceptonly" => pure stepExceptOnly
         | _ => return "bad-op"
       let tr := trace st s0 ops
       let levels := tr.map fun x => fmtLevel x.1.console
